@@ -323,6 +323,20 @@ fn run(tier: Tier) -> Sink {
             }
         }
     }
+    // the same constructions at large and small magnitudes (power-of-two scalings keep the
+    // data exact): the effective dof must not overflow / underflow in the data's float type
+    for (f32_, exps) in [(false, vec![-300, -40, 40, 300]), (true, vec![-40, -20, 20, 40])] {
+        for e in exps {
+            let k = 2f64.powi(e);
+            for (na, nb) in [(2, 2), (3, 2), (5, 4), (12, 7)] {
+                for r in [0.0625, 1.0, 16.0] {
+                    let a: Vec<f64> = two_point(na, 1.0, 1.0).iter().map(|x| x * k).collect();
+                    let b: Vec<f64> = two_point(nb, -0.5, r).iter().map(|x| x * k).collect();
+                    jobs.push(Job::Unp(a, b, f32_, false));
+                }
+            }
+        }
+    }
     for la in 0..=5 {
         for lb in 0..=5 {
             jobs.push(Job::Lengths(la, lb));
